@@ -180,14 +180,16 @@ static std::vector<Plan> c07_fixed(int tier) {
         std::vector<std::vector<uint16_t>> cl = { {}, { 0x0401 }, { 0x0401, 0x0501 }, { 0x0501, 0x0401 }, { 0x0601, 0x0401 }, { 0x0401, 0x0501, 0x0601 } };
         std::vector<std::vector<uint16_t>> sl; sl.push_back({});
         for (int st = 0; st < 3; st++) { for (int n = 1; n <= 3; n++) { std::vector<uint16_t> l; for (int i = 0; i < n; i++) { l.push_back(P1[(st + i) % 3]); } sl.push_back(l); } }
-        for (size_t a = 0; a < cl.size(); a++) { for (size_t b = 0; b < sl.size(); b++) { for (int d = 0; d < 2; d++) {
-            Plan p; p.seed = 76000 + (uint64_t) ((a * 16 + b) * 2 + (size_t) d);
+        for (size_t a = 0; a < cl.size(); a++) { for (size_t b = 0; b < sl.size(); b++) { for (int d = 0; d < 2; d++) { for (int ca = 0; ca < 2; ca++) {
+            if (ca && ((a + b + (size_t) d) % 2)) { continue; }      // with client authentication (the client's CertificateVerify algorithm): half of the grid
+            Plan p; p.seed = 76000 + (uint64_t) ((a * 16 + b) * 2 + (size_t) d) + (uint64_t) ca * 500;
             p.cfg["dtls"] = d; p.cfg["vers_c"] = d ? 16 : 2; p.cfg["vers_s"] = d ? 16 : 2; p.cfg["sid_kind"] = KK_RSA2048; p.cfg["suite"] = TLS_ECDHE_RSA_WITH_AES_128_GCM_SHA256;
+            if (ca) { p.cfg["cauth"] = KK_RSA2048; }
             for (size_t i = 0; i < cl[a].size(); i++) { p.cfg["sig_c" + std::to_string(i)] = cl[a][i]; }
             for (size_t i = 0; i < sl[b].size(); i++) { p.cfg["sig_s" + std::to_string(i)] = sl[b][i]; }
             p.ops.push_back(Op("send", 0, 50)); p.ops.push_back(Op("send", 1, 50));
             v.push_back(p);
-        } } }
+        } } } }
     }
     // per-session suite status sequences on the server: disable X, disable Y, re-enable X (and permutations with a third suite), the client
     // preferring each suite in turn - the suite in force must never be one that is disabled at the end of the sequence
@@ -275,6 +277,7 @@ static RunResult c07_exec(const Plan &p) {
         else {
             bool rewritten = false; int seen_ch = 0;
             int ske_curve = -1;      // TLS <= 1.2 ServerKeyExchange (ECDHE): the named curve the server chose, read off the wire
+            int cv_sigalg = -1; bool c_ccs_seen = false;     // TLS 1.2 client CertificateVerify: the algorithm the client signed with, read off the wire
             int ske_sigalg = -1;     // TLS 1.2 ServerKeyExchange (ECDHE): the SignatureAndHashAlgorithm the server signed with, read off the wire
             w.filter = [&](Record &r, std::vector<Bytes> &out) {
                 Bytes raw = r.raw;
@@ -284,6 +287,11 @@ static RunResult c07_exec(const Plan &p) {
                     if (b[0] == 3) { ske_curve = b[1] << 8 | b[2]; }
                     if (b[0] == 3 && n > 4 + (size_t) b[3] + 2) { size_t o = 4 + (size_t) b[3]; ske_sigalg = b[o] << 8 | b[o + 1]; }   // named_curve ECParameters + point, then the algorithm pair
                 }
+                // TLS 1.2 client CertificateVerify (sent in the clear, before the client's ChangeCipherSpec): the algorithm pair leads the message
+                if (r.type == 22 && r.dir == DIR_C2S && (dtls ? r.epoch == 0 : !c_ccs_seen) && r.body_len() > hh + 4 && r.raw[r.hdr] == 15 && cv_sigalg < 0) {
+                    const unsigned char *b = r.raw.data() + r.hdr + hh; cv_sigalg = b[0] << 8 | b[1];
+                }
+                if (r.type == 20 && r.dir == DIR_C2S) { c_ccs_seen = true; }
                 bool prot = dtls ? r.epoch > 0 : false;
                 if (rw != RW_NONE && !rewritten && r.type == 22 && !prot && r.body_len() > hh) {
                     const unsigned char *b = r.raw.data() + r.hdr;
@@ -393,6 +401,15 @@ static RunResult c07_exec(const Plan &p) {
                             res.count("sigalg12.server_key_exchange." + std::to_string(ske_sigalg));
                             if (!sig_enabled12(pc.sigalgs_c, ske_sigalg)) { res.violate("sigalg_not_mutual", "tls1.2_client_accepted_one_it_never_offered", "the ServerKeyExchange is signed with algorithm " + std::to_string(ske_sigalg) + ", which the client did not offer " + sl); }
                             else if (!sig_enabled12(pc.sigalgs_s, ske_sigalg)) { res.violate("sigalg_not_mutual", "tls1.2_server_signed_with_one_it_never_enabled", "the ServerKeyExchange is signed with algorithm " + std::to_string(ske_sigalg) + ", which is not in the server's own list " + sl); }
+                        }
+                        if (!res.violation && nvc == v_tls_1_2 && cv_sigalg >= 0) {
+                            // the verifier's (server session's) list decides what it may accept; the signer's own list is counted only: in TLS 1.2 that
+                            // list is what the client offers the server for the SERVER's signatures, and the client picks its own from the CertificateRequest
+                            auto sig_enabled12 = [](const std::vector<uint16_t> &l, int a) { if (l.empty()) { return true; } for (auto x : l) { if (x == a) { return true; } } return false; };
+                            std::string sl = "c["; for (auto x : pc.sigalgs_c) { sl += std::to_string(x) + " "; } sl += "] s["; for (auto x : pc.sigalgs_s) { sl += std::to_string(x) + " "; } sl += "]";
+                            res.count("sigalg12.certificate_verify." + std::to_string(cv_sigalg));
+                            if (!sig_enabled12(pc.sigalgs_s, cv_sigalg)) { res.violate("sigalg_not_mutual", "tls1.2_server_accepted_client_signature_it_never_enabled", "the client's CertificateVerify is signed with algorithm " + std::to_string(cv_sigalg) + ", which is not in the server session's list " + sl); }
+                            else if (!sig_enabled12(pc.sigalgs_c, cv_sigalg)) { res.count("probe.tls12_client_signed_outside_its_own_list"); }
                         }
                         if (!res.violation && p.get("fallback") && top_bit(vs) > top_bit(vc_eff)) {
                             res.violate("fallback_accepted", ctx, "the ClientHello carried TLS_FALLBACK_SCSV, the server supports a higher version than the client offered, and the handshake completed");
